@@ -180,6 +180,9 @@ TIES = {
  'C04': ('translate/pyqueue2coq.py -> coq/gen/QueueStepGen.v (as C02) plus pause, _ends_after, cancel, requeue (base and interleaved), resume, rewind_samples; tie '
          'theorems Queue/ProofsTieC04.v (C04_source_*): a history run with the generated pop_buffer / pause / resume is the model history; conservation, at-empty, '
          'pause-exact and future-pause rejection restated over it'),
+ 'C06': ('both generated components (gen/QueueStepGen.v, gen/CaptureGen.v) regenerated for the tree under test; EndToEnd/ProofsTie.v: the combined schedule run with the '
+         'generated queue operations and the generated extractor send equals the model run (C06_source_run_steps_is_model), C06_source_end_to_end and '
+         'C06_source_trials_in_stream restate the composition over it; the glue between the two generated components is hand-written Gallina'),
  'C03': ('translate/pyqueue2coq.py -> coq/gen/QueueStepGen.v (as C02); C03_source_* restate policy order / after-empty over runs of the generated pop_buffer'),
  'C10': ('translate/pydeterm2coq.py -> coq/gen/DetermGen.v: an ALIASING translator (fresh array / view / in-place write / read-only flag per NumPy operation) of '
          'fast_cache, FixedWaveform.next, GateFactory.next, ToneFactory / SilenceFactory next and the reset methods; tie theorems Determ/ProofsTie.v (C10_source_*)'),
@@ -201,6 +204,3 @@ for _p, _t in TIES.items():
     if 'translator tie' not in CHECKS[_p]['note']:
         CHECKS[_p]['note'] += ' Translator tie: ' + _t + '.'
 
-CHECKS['C06']['note'] += (' Both component models (Queue, Extract) are additionally tied to queue.py / pipeline.py by translator ties (C02-C05: C0x_source_* '
-                          'theorems); the C06 composition theorems themselves are stated over the hand-written component models (C06 composition over the '
-                          'generated definitions was not restated).')
